@@ -46,6 +46,9 @@ def mw_case(draw, broker):
                              "text": draw(st.sampled_from(["subscriber failed", "subscriber failed", "{}", "{0}", "{x}", '{"k": 1}', "}{", "%s %(x)s"])),
                              # plain function, method of a middleware object, or function of a middleware class
                              "via": draw(st.sampled_from(["fn", "fn", "obj", "cls"]))})
+    for i, sp in enumerate(list(subs)):
+        if sp["via"] == "obj" and draw(st.integers(0, 2)) == 0:
+            subs.append({**sp, "twin_of": i})  # the same middleware class instantiated a second time
     return {"broker": broker, "seed": draw(st.integers(0, 999)), "subs": subs,
             "style": {op: draw(st.sampled_from(["pos", "kw", "mixed"])) for op in OP_ARGS},
             "two_connections": draw(st.booleans()), "other_subs": draw(st.booleans()),
@@ -72,13 +75,20 @@ def make_subscriber(spec: dict, log: list, label: str, loop) -> Any:
     return ns[spec["signal"]], ns
 
 
-def register(middleware, spec: dict, fn) -> None:
+def register(middleware, spec: dict, fn, classes: dict | None = None, index: int = -1) -> None:
     via = spec.get("via", "fn")
     if via == "fn":
         middleware.add_subscriber(fn)
         return
+    if spec.get("twin_of") is not None and classes is not None and spec["twin_of"] in classes:
+        # a second instance of a middleware class that is registered already (one per application component, say): its
+        # subscribers are subscribers like any other
+        middleware.add_middleware(classes[spec["twin_of"]]())
+        return
     # a helper that is no signal name rides along: it must be ignored
     cls = type("GeneratedMiddleware", (), {spec["signal"]: fn, "helper": (lambda *a, **k: None)})
+    if classes is not None:
+        classes[index] = cls
     middleware.add_middleware(cls() if via == "obj" else cls)
 
 
@@ -123,10 +133,11 @@ async def _script(loop, case, out: Outcome, with_subs: bool):
         probe = Probe(loop)
         probe.attach(conn)
         trace_probe.append(probe)
-        for spec in case["subs"]:
+        classes: dict = {}
+        for si, spec in enumerate(case["subs"]):
             fn, ns = make_subscriber(spec, log, "A", loop)
             ns["STATE"] = lambda: _state(env)
-            register(conn.middleware, spec, fn)
+            register(conn.middleware, spec, fn, classes, si)
         # sentinels (never counted by the per-operation oracle): which keys do enqueue signals report?
         def before_enqueue(key=None):  # noqa: ANN001
             sentinel.append(("before_enqueue", getattr(key, "id_", None)))
